@@ -4,7 +4,7 @@ from __future__ import annotations
 import ast
 import re
 
-from .. import cabs, cxx, dl, l2, pe
+from .. import cabs, cxx, dl, l2, lit, pe
 from ..cabs import Exec, State, lname
 from ..core import AnalysisError
 from ..cxx import show, sub_exprs
@@ -210,10 +210,13 @@ def host_object(hm, cname, *args, **kwargs):
         if out.kind != "return":
             raise AnalysisError(f"host {cname}.__init__ raises {out.value} for {args} {kwargs}")
     for c_ in hm.classes[cname].body:
-        if isinstance(c_, ast.Assign) and isinstance(c_.targets[0], ast.Name):
+        tgt_ = c_.targets[0] if isinstance(c_, ast.Assign) else c_.target if isinstance(c_, ast.AnnAssign) and c_.value is not None else None
+        if isinstance(tgt_, ast.Name):
             v_ = try_const(c_.value, hm, hm.classes[cname])
-            if v_ is not None and not hasattr(o, c_.targets[0].id):
-                setattr(o, c_.targets[0].id, v_)
+            if v_ is None:
+                v_ = lit.try_ev(c_.value, hm)
+            if v_ is not None and not hasattr(o, tgt_.id):
+                setattr(o, tgt_.id, v_)
     return o
 
 
